@@ -7,7 +7,8 @@ EXPLANATION = (
     "updated exactly as often as an element is inserted/extracted/removed; (R2) add and cancel compute the bucket index "
     "with the same expression; (R3) for every weak ordering of (event time, bound at add, bound at cancel) cancel searches "
     "the container add placed the event in; (R4) add panics iff time < bound; (R5) fetch_next's skeleton (zero container "
-    "first; bound := front time of the bucket popped, before the pop); (R6) handles are linear (no Clone/Copy, cancel by value). "
+    "first; bound := front time of the bucket popped, before the pop); (R6) handles are linear (no Clone/Copy, cancel by value; compile-fail witnesses in the thorough tier); "
+    "(R7) the timestamp given to add is stored and returned unconverted (same type in the node, no casts). "
     "Decides these necessary conditions only; not the time order / exactly-once behaviour over operation histories.")
 ASSUMPTIONS = [
     "VecDeque/BinaryHeap/Vec behave as documented",
